@@ -43,6 +43,12 @@ def run(rep, tier):
         qs.append(l2.Query("mixing_matrix.d%d" % d, ctm, ["D=%d" % d], trig=True, timeout=600, unwind=80,
                            function="Const::GetTransformationMatrix (ordered product of plane rotations)", where="src/const.cpp"))
 
+    cwr = extract.instantiate(open(os.path.join(core.VERIF, "contracts", "C06_wr_l2.c")).read(), rep)
+    for wch, nm in ((1, "params"), (2, "matrices")):
+        qs.append(l2.Query("weighted_rotation.%s" % nm, cwr, ["WHICH=%d" % wch], timeout=60, function="SU_vector::WeightedRotation (%s overload)" % nm, where="src/SUNalg.cpp"))
+    rep.trust("spec lemma: (1/4)({Y,{Y,s}} + i[Y,i[Y,s]]) = Y s Y (from C02's contracts of the two commutators); with RotateToB0(p) = U_p . U_p^dagger = UDaggerTransform(U_p) and "
+              "RotateToB1(p) = UTransform(U_p) the two WeightedRotation overloads are the same map")
+
     def gens(q):
         df = l2.defs_of(q)
         if "LINEAR" in df or "II" not in df:
